@@ -171,6 +171,14 @@ theorem andersonDarlingAsarray_other_dtype (kinds : Nat → Kind) (hd : (kinds 0
   cases v <;> cases d <;>
     simp_all [run, runFrom, andersonDarlingAsarray, step, init, upd, Cond.sat, anyLayout, freshKind]
 
+/-- the grid functions convert the caller's grid in place (`flowdir.dtype = np.int64`): the buffer the kernel
+receives IS the caller's grid data, so `accumulate_safe` rests on the kernel reading it only; a kernel that
+stores into it is rejected, and the caller's flow-direction grid is written whatever its dtype -/
+theorem accumulateWritesFlowdir_not_safe : ¬ Safe accumulateWritesFlowdir := by decide
+theorem accumulateWritesFlowdir_writes_caller_grid (kinds : Nat → Kind) :
+    Buf.caller 0 ∈ (run accumulateWritesFlowdir kinds).written := by
+  simp [run, runFrom, accumulateWritesFlowdir, step, init, upd]
+
 /-- `putils.kde` as pinned (jitter added to the `np.asarray` image of the argument): rejected, and the
 caller's array is written whenever `np.asarray` is a view -/
 theorem kdePinned_not_safe : ¬ Safe kdePinned := by decide
